@@ -499,6 +499,57 @@ class HttpFuzz:
             signal.signal(signal.SIGALRM, old)
         return H.Result(status, time.perf_counter() - t0, H._LAST_EXC[-1] if H._LAST_EXC else None, to)
 
+    REGRESSIONS = [
+        "/dash/live/bbb/hand_made.mpd?drm=foo", "/dash/live/bbb/hand_made.mpd?time=bogus",
+        "/dash/live/bbb/hand_made.mpd?start=P1D", "/dash/live/bbb/hand_made.mpd?start=",
+        "/dash/live/bbb/hand_made.mpd?start=2024-03-05", "/dash/live/bbb/hand_made.mpd?drift=99999999999999",
+        "/dash/live/bbb/hand_made.mpd?start=2024-03-05T10:20:30%2B99:00",
+        "/dash/live/bbb/hand_made.mpd?start=99999999999999999999-01-01T00%3A00%3A00Z",
+        "/dash/live/bbb/hand_made.mpd?start=2024-01-01T00%3A00%3A00%2B99999999999999999%3A00",
+        "/dash/vod/tears/manifest_e.mpd?drm=all", "/dash/vod/tears/hand_made.mpd?drm=all&verr=503%3D1",
+        "/dash/vod/c16ui/c16ui_a1/init.m4s", "/dash/live/c16ui/c16ui_a1/time/180000.m4s",
+        "/dash/live/syn1/syn1_a1/time/1000000000000000000000000000000.m4a",
+        "/dash/live/c16ui/c16ui_v1/10000000000000000000000000.m4v",
+        "/mps/vod/c16mps/2/tears_v1/time/0.m4v", "/mps/live/c16mps/2/tears_v1/time/0.m4a",
+        "/mps/live/c16mpx/3/c16nr_v1/time/96256.m4s", "/mps/vod/c16mpx/3/c16nr_v1/5.m4a",
+        "/mps/live/c16mp0/1000000000000000000000000000000/nosuch/0.m4v", "/stream/18446744073709551617",
+        "/stream/2/1/segment/99", "/stream/3/14/segment/100000000000000000000",
+        "/mps/live/c16mps/hand_made", "/mps/live/c16mps/hand_made?patch=1", "/mps/live/c16mpz/hand_made.mpd",
+        "/mps/live/c16mp0/hand_made.mpd", "/patch/bbb/hand_made.mpd/1709634000", "/patch/syn2/hand_made/1000000000000",
+        "/patch/c16na/hand_made/1000000000000000000000000000000", "/patch/bbb/hand_made/1709634000?mup=0",
+        "/play/mps/vod/c16mpx/manifest_e.mpd/index.html", "/play/live/c16nr/manifest_n.mpd/index.html",
+        "/play/live/c16em/manifest_b.mpd/index.html", "/play/mps/live/c16mp0/hand_made/index.html",
+        "/play/mps/live/c16mps/manifest_ef.mpd/index.html?time=xsd",
+        "/play/mps/live/c16mps/manifest_b.mpd/index.html?drm=marlin%2Cclearkey", "/play/live/bbb/nosuch.mpd/index.html",
+        "/dash/live/bbb/manifest_e.mpd?merr=503%3D2024-03-05T10%3A20%3A30Z", "/dash/vod/bbb/manifest_e.mpd?merr=503%3D10:20:30Z",
+        "/dash/live/bbb/manifest_e.mpd?verr=503%3D", "/dash/live/bbb/manifest_e.mpd?verr=503%3DP1Y",
+        "/dash/vod/bbb/manifest_i.mpd?aerr=503%3D10%3A20%3A30Z", "/dash/live/bbb/hand_made.mpd?vcorrupt=a%2Cb",
+        "/dash/vod/tears/tears_v2/time/0.m4v?scte35__timescale=4294967296&events=ping%2Cscte35",
+        "/dash/vod/bbb/hand_made.mpd?events=ping&ping__inband=0&ping__count=99999999",
+        "/dash/vod/bbb/bbb_v7/2.m4v?events=ping&ping__start=-99999999999&ping__interval=1&ping__timescale=1",
+        "/dash/vod/bbb/hand_made.mpd?events=scte35&scte35__timescale=0&scte35__inband=0&scte35__count=2",
+        "/dash/vod/bbb/hand_made.mpd?events=scte35&scte35__program_id=-1&scte35__inband=0&scte35__count=2",
+        "/dash/vod/bbb/bbb_v7/1.m4v?events=scte35&scte35__program_id=70000&scte35__interval=10",
+        "/stream/1?verr=404%3D2", "/stream/1?depth=x", "/stream/1?events=scte35&scte35__program_id=-1&scte35__inband=0&scte35__count=2",
+        "/time/head?drift=9007199254740993",
+    ]
+
+    def regressions(self):
+        """the requests that failed before the `fix:` commits of this property"""
+        for url in self.REGRESSIONS:
+            path, _, qs = url.partition("?")
+            q = [list(p) for p in urllib.parse.parse_qsl(qs, keep_blank_values=True)]
+            self.one("GET", urllib.parse.unquote(path), q, "anon", None, endpoint="regression")
+        q = [["base", "0"]]
+        self.one("GET", "/mps/vod/c16mps/hand_made.mpd", q, "anon", {"X-Forwarded-Proto": "https"}, endpoint="regression")
+        for body in ("json-null", "json-list", "json-str"):
+            for path in ("/clearkey", "/api/login"):
+                self.one("POST", path, [], "anon", None, body=[b for b in BODIES if b[0] == body][0],
+                         endpoint="regression")
+        for body in ("form", "json-obj", "form-csrf"):
+            self.one("POST", "/stream/1", [], "media", None, body=[b for b in BODIES if b[0] == body][0],
+                     endpoint="regression")
+
     def sweep(self):
         """every GET rule at least once with valid and once with invalid parameters, per role"""
         for rule in self.rules:
@@ -569,6 +620,7 @@ def ch_fuzz_http(ctx) -> Channel:
     with appboot.Clock(c16_http.NOW):
         fz.login()
         t0 = time.perf_counter()
+        fz.regressions()
         fz.sweep()
         fz.every_option()
         fz.random_gets(ctx.scale(2300, 60000))
